@@ -231,6 +231,19 @@ Proof.
       destruct (Nat.lt_ge_cases k (length poly)). now apply H. now apply nth_overflow.
 Qed.
 
+Lemma degree_of_pos_nz poly : 0 < degree_of O poly ->
+  nth (degree_of O poly) poly zero <> zero /\ degree_of O poly < length poly.
+Proof.
+  unfold degree_of. pose proof (last_nz_spec poly (length poly)) as H.
+  destruct (last_nz O poly (length poly)); [|lia]. intros _. tauto.
+Qed.
+
+Lemma degree_of_lt poly : poly <> [] -> degree_of O poly < length poly.
+Proof.
+  unfold degree_of. pose proof (last_nz_spec poly (length poly)) as H.
+  destruct (last_nz O poly (length poly)). tauto. intros Hn. destruct poly; [congruence|simpl; lia].
+Qed.
+
 Lemma degree_of_split poly :
   poly = firstn (S (degree_of O poly)) poly ++ repeat zero (length poly - S (degree_of O poly)).
 Proof. apply zeros_above_split. intros k Hk. apply (proj1 (degree_of_spec poly)). lia. Qed.
